@@ -4,7 +4,9 @@ check("C13", "exploration",
       "line (characters), injected faults covered by a diagnostic of their code, build_report+write succeeding in all four colour/charset "
       "configurations (Diagnostics.tla, Trace_Diagnostics.tla); (3) determinism: inputs compiled 3x/8x in fresh processes must give the same "
       "verdict, diagnostics and IR text (Trace_Determinism.tla); (4) syntax errors: for every token sequence the recogniser SyntaxRules.tla "
-      "calls invalid(lo, hi), the span of the first parse diagnostic covers a token of the window lo..hi.",
+      "calls invalid(lo, hi), the span of the first parse diagnostic covers a token of the window lo..hi; (5) layout variants of every invalid sample "
+      "(no final newline, behind a 300-column multi-byte line, as one line, as second / third module of a set, twice in one file): the expected place of each "
+      "diagnostic is decided by TLC (Diagnostics!CoversAt).",
       "'Covers the offending text' is decided only where the offending text is known (injected lexical faults, E402 specials); elsewhere "
       "well-formedness of the location. The rendering observation (write returned Ok) is made by the harness. Line starts are computed by "
       "the harness, not by the lexer under test. `col` and clean rendering (no ESC without colour, ASCII frames) are notes only here.",
